@@ -17,6 +17,7 @@
 package log
 
 import (
+	"bytes"
 	"sort"
 	"sync/atomic"
 
@@ -298,6 +299,9 @@ func (c *AsyncLogger) Append(e *Event) {
 // Write enqueues raw bytes into the buffer.
 // Behavior on full buffer depends on BufferFullPolicy.
 func (c *AsyncLogger) Write(b []byte) {
+	// The worker consumes the bytes later, when the caller
+	// may already have reused its buffer (io.Writer contract).
+	b = bytes.Clone(b)
 	select {
 	case c.buf <- b:
 	default:
